@@ -176,6 +176,7 @@ class Engine(object):
             self.u.class_id(cname)
         for cname in CONTAINER_CLASSES + ("function", "object"):
             self.u.class_id(cname)
+        self.path_meta = {}      # name of a merged path -> (function, source line of the statement being merged, branch, of)
         self.oracles = {}
         for name, (args, res) in C.ORACLES.items():
             sorts = [self._sort_of(a) for a in args] + [self._sort_of(res)]
@@ -522,20 +523,27 @@ class Engine(object):
             r = z3.Int("r!c")
             k = z3.Int("k!c")
             x = z3.Const("x!c", u.Val)
+            # only objects that existed at entry (r < alloc0): the "entry value" of a field of an object allocated
+            # later is whatever its constructor contract says (it may well refer to other new objects)
+            old_obj = z3.And(r > 0, r < a0)
             if field == "$at":
                 v = arr[r][k]
-                self.global_axioms.append(z3.ForAll([r, k], z3.Implies(u.is_R(v), u.r(v) < a0), patterns=[arr[r][k]]))
+                self.global_axioms.append(z3.ForAll([r, k], z3.Implies(z3.And(old_obj, u.is_R(v)), u.r(v) < a0),
+                                                    patterns=[arr[r][k]]))
             elif field == "$val":
                 v = arr[r][x]
-                self.global_axioms.append(z3.ForAll([r, x], z3.Implies(u.is_R(v), u.r(v) < a0), patterns=[arr[r][x]]))
+                self.global_axioms.append(z3.ForAll([r, x], z3.Implies(z3.And(old_obj, u.is_R(v)), u.r(v) < a0),
+                                                    patterns=[arr[r][x]]))
             elif field in ("$len", "$has", "$dlen", "$klen"):
                 pass
             elif field == "$kat":
                 v = arr[r][k]
-                self.global_axioms.append(z3.ForAll([r, k], z3.Implies(u.is_R(v), u.r(v) < a0), patterns=[arr[r][k]]))
+                self.global_axioms.append(z3.ForAll([r, k], z3.Implies(z3.And(old_obj, u.is_R(v)), u.r(v) < a0),
+                                                    patterns=[arr[r][k]]))
             else:
                 v = arr[r]
-                self.global_axioms.append(z3.ForAll([r], z3.Implies(u.is_R(v), u.r(v) < a0), patterns=[arr[r]]))
+                self.global_axioms.append(z3.ForAll([r], z3.Implies(z3.And(old_obj, u.is_R(v)), u.r(v) < a0),
+                                                    patterns=[arr[r]]))
         return arr
 
     def read_field(self, st, obj, field, cls_hint=None):
@@ -683,6 +691,9 @@ class Engine(object):
                 # name the path condition once; Ifs and the disjunction use the name.
                 # quantified facts stay outside the definition (only implied by the name)
                 nm = self.u.fresh_bool("path")
+                if not getattr(self, "suppress", False):
+                    self.path_meta[str(nm)] = (getattr(self, "cur_fid", None), getattr(self, "cur_line", 0),
+                                               len(tails), len(states))
                 qf = [f for f in tl if not _has_quantifier(f)]
                 qs = [f for f in tl if _has_quantifier(f)]
                 # SOUNDNESS: the name only *implies* its path's facts (one of the names holds, see the disjunction
